@@ -281,6 +281,22 @@ func runC07(w *W) {
 		run("SELECT "+e+" FROM t", fmt.Sprintf("deep-call:%d", depth*3))
 	}
 
+	// (1c) long queries: tokens with a multi-byte look-ahead (db.0001_t, $tag$…$tag$, two-character operators) placed so
+	// that they meet the 4096 / 8192 byte marks in the bare query or in one of its embeddings (the prefix of each
+	// context shifts every offset by 10–45 bytes)
+	probesTail := []string{" a FROM db.00001_tbl WHERE x >= 1 AND y <> 2", " $tag$ some text $tag$ AS s, b::UInt8, c -> d FROM t", " 'it''s' AS q, 1.5e3, .5 FROM t -- end"}
+	for _, mark := range []int{4096, 8192} {
+		for pad := mark - 110; pad <= mark+10; pad += 1 {
+			for ti, tail := range probesTail {
+				if (pad+ti)%3 != 0 && !w.Thorough() {
+					continue
+				}
+				q := "SELECT /*" + strings.Repeat("p", pad-len("SELECT /*")-2) + "*/" + tail
+				run(q, fmt.Sprintf("window:%d@%d", mark, pad))
+			}
+		}
+	}
+
 	// (2) the hand-written rarely combined forms (WITH inheritance, DISTINCT ON, LIMIT BY, set operations …)
 	for i, q := range specialSelects() {
 		run(q, "special:"+itoa(i))
